@@ -1,16 +1,20 @@
 #!/bin/sh
 # usage: scripts/trymutant.sh <patch.diff> <ID> [<ID>...] : apply the patch to /repo, run the quick checks, undo.
+# With MUT_REPO=<scratch worktree> the patch is applied there instead and the checks run with VERIF_REPO set
+# (used while a long background run is reading /repo).
 P=$1; shift
-git -C /repo diff --quiet || { echo "/repo is dirty"; exit 2; }
-restore() { git -C /repo checkout HEAD -- . ; git -C /repo reset -q; }
-if ! git -C /repo apply "$P" 2>/dev/null; then
-  if ! git -C /repo apply -3 "$P" >/dev/null 2>&1; then echo "patch does not apply"; restore; exit 2; fi
-  git -C /repo reset -q
+R=${MUT_REPO:-/repo}
+[ "$R" != /repo ] && { git -C $R checkout -q --detach main && git -C $R checkout -q -- . ; export VERIF_REPO=$R; }
+git -C $R diff --quiet || { echo "/repo is dirty"; exit 2; }
+restore() { git -C $R checkout HEAD -- . ; git -C $R reset -q; }
+if ! git -C $R apply "$P" 2>/dev/null; then
+  if ! git -C $R apply -3 "$P" >/dev/null 2>&1; then echo "patch does not apply"; restore; exit 2; fi
+  git -C $R reset -q
 fi
 trap restore EXIT INT TERM
 for id in "$@"; do
-  /verif/bin/vcheck $id --tier quick > /var/tmp/trymut.$id.log 2>&1
+  /verif/bin/vcheck $id --tier quick > ${MUT_LOG:-/var/tmp}/trymut.$id.log 2>&1
   rc=$?
-  echo "== $id exit=$rc  $(grep -c '^VIOLATION' /var/tmp/trymut.$id.log) VIOLATION lines; $(grep '^VIOLATION' /var/tmp/trymut.$id.log | head -1 | cut -c1-120)"
-  grep "^vcheck:" /var/tmp/trymut.$id.log | head -3 | cut -c1-300
+  echo "== $id exit=$rc  $(grep -c '^VIOLATION' ${MUT_LOG:-/var/tmp}/trymut.$id.log) VIOLATION lines; $(grep '^VIOLATION' ${MUT_LOG:-/var/tmp}/trymut.$id.log | head -1 | cut -c1-120)"
+  grep "^vcheck:" ${MUT_LOG:-/var/tmp}/trymut.$id.log | head -3 | cut -c1-300
 done
